@@ -449,6 +449,13 @@ class Ctx:
         if len(self.cov["samples"]) < 8:
             self.cov["samples"].append(s)
 
+    # -- behaviour modelled beyond the listed property: a mismatch there is reported, but is NOT a violation of this property
+    def extension_mismatch(self, clause, case):
+        self.cov.setdefault("extension_mismatches", []).append({"clause": clause, "case": case})
+        if len(self.cov["extension_mismatches"]) <= 5:
+            print(f"EXTENSION-MISMATCH property={self.prop} clause={clause} (outside the property's statement; not a violation) "
+                  f"{json.dumps(case, default=str)[:300]}")
+
     # -- verdicts
     def violation(self, clause, case, detail=""):
         k = match_known(self.known, self.prop, clause, case)
